@@ -2,10 +2,11 @@ SPECIFICATION Spec
 CONSTANTS
   CheckTrailer = TRUE
   UpdateWatchdog = TRUE
+  WaitOrigins = FALSE
   Bound = 1
   NOrigs = {0, 1}
   Intfs = {"keep", "recursive"}
   Gen = FALSE
 INVARIANTS TypeOK InvSuccessSound InvFailureReported InvNoRedundant InvUnpinIdempotent
-  InvStallGivesUp InvUpdateOnlyIfRecursive InvSourceKept
+  InvStallGivesUp InvOriginsBestEffort InvUpdateOnlyIfRecursive InvSourceKept
 PROPERTY Termination
